@@ -93,7 +93,11 @@ def install_member_api(reg, cx):
         else:
             r = A.fresh_arr(st, 'Pt', 'msample', n=n)
         ex.need(st)('sample_count_nonneg', n >= 0)
-        st.assume(A.forall_idx(n, lambda j: Cm(m.t, r.at(j))))
+        fact = A.forall_idx(n, lambda j: Cm(m.t, r.at(j)))
+        if k is not None:
+            # parametric in the comprehension index: generalised by the caller
+            st.ghost['comp_facts'] = st.ghost.get('comp_facts', ()) + (fact,)
+        st.assume(fact)
         return st.alloc(r, 'msample')
 
     def m_transform(ex, st, m, args, kw, node):
